@@ -637,9 +637,59 @@ def r15h(run):
                             "field: {'y': 1} is accepted although _x is required, and '_x': 'abc' is never checked",
                   node=trig[0].ast)
 
+# keywords whose falsy values (0, false, "", null) are meaningful: presence must not be decided by truthiness
+FALSY_MEANINGFUL = {"const", "default"}
+
+
+def r15i(run):
+    C = run.repo.cls(PARSER, "JsonSchemaParser")
+    total = 0
+    for f in C.methods.values():
+        fa = analysis(f)
+        for n in fa.cfg.nodes:
+            if n.ast is None or n.kind not in ("stmt", "test"):
+                continue
+            for sub in walk_shallow(n.ast):
+                if not (isinstance(sub, ast.Call) and isinstance(sub.func, ast.Attribute) and sub.func.attr == "get"
+                        and sub.args and isinstance(sub.args[0], ast.Constant) and sub.args[0].value in FALSY_MEANINGFUL):
+                    continue
+                total += 1
+                kw = sub.args[0].value
+                sentinel = len(sub.args) == 2 and unparse(sub.args[1]) == "unprovided"
+                # how is the result consumed?
+                bad = None
+                parents = {}
+                for x in ast.walk(n.ast):
+                    for ch in ast.iter_child_nodes(x):
+                        parents[id(ch)] = x
+                par = parents.get(id(sub))
+                if isinstance(par, ast.BoolOp) or isinstance(par, ast.UnaryOp) and isinstance(par.op, ast.Not) \
+                        or isinstance(par, ast.IfExp) and par.test is sub or n.kind == "test" and n.ast is sub:
+                    bad = "is tested by truthiness"
+                elif isinstance(n.ast, ast.Assign) and n.ast.value is sub and not sentinel:
+                    tgt = unparse(n.ast.targets[0])
+                    for m in fa.cfg.nodes:
+                        if m.kind == "test" and m.ast is not None and fa.cfg.can_reach(n, m):
+                            for a, p in decompose(m.ast, True) + decompose(m.ast, False):
+                                if unparse(a) == tgt:
+                                    bad = f"is bound to `{tgt}` and tested by truthiness"
+                    for m in fa.cfg.nodes:
+                        if m.ast is None:
+                            continue
+                        for x in walk_shallow(m.ast):
+                            if isinstance(x, ast.BoolOp) and any(unparse(v) == tgt for v in x.values[:-1]) \
+                                    or isinstance(x, ast.IfExp) and unparse(x.test) == tgt:
+                                bad = f"is bound to `{tgt}` and combined by truthiness"
+                run.check("R15i", f, f"presence of `{kw}` is decided by a sentinel, not by truthiness", bad is None,
+                          construct=f"falsy `{kw}` treated as absent",
+                          message=f"{f.qualname}: the value of `{kw}` ({unparse(sub)}) {bad}",
+                          necessity=f"{{'{kw}': 0}} / false / '' / null are legal: a falsy const without a type yields an "
+                                    "unconstrained type that returns any value", node=sub)
+    run.floor("R15i", "reads of const / default", total, 2)
+
 
 def check(run):
-    run.rules_run += ["R15a", "R15b", "R15c", "R15d", "R15e", "R15f", "R15g", "R15h"]
+    run.rules_run += ["R15a", "R15b", "R15c", "R15d", "R15e", "R15f", "R15g", "R15h", "R15i"]
     run.explain("Static tables-and-shapes check of the JSON-Schema translator: CONSTRAINTS_MAP / TYPE_MAP folded from "
                 "source and compared with the JSON-Schema vocabulary (implication, not equality); nullable .get() "
                 "results never called or dereferenced unguarded; recursion only on strict components; every trigger "
@@ -652,3 +702,4 @@ def check(run):
     r15e(run)
     r15g(run)
     r15h(run)
+    r15i(run)
